@@ -158,18 +158,18 @@ def concretise(pred, rnd, k):
     out = []
     if c["m"] in ("jwk", "key"):
         for kt, defect in pick(rnd, KEYS[(c["m"], c["key"])], k):
-            out.append(dict(kind=c["m"], keytype=kt, defect=defect, meta=c["meta"]))
+            out.append(dict(kind=c["m"], keytype=kt, defect=defect, meta=c["meta"], order=c["built"]))
         return out
     if c["local"] != "none":
         hv, pv = HOSTS["name"][0], PATHS["segs"][0]
         for s in pick(rnd, answer_variants(c["ans"], "did:web:managed", hv, pv), k):
-            out.append(dict(kind="managed", local=c["local"], meta=c["meta"], server=s))
+            out.append(dict(kind="managed", local=c["local"], meta=c["meta"], server=s, order=c["built"]))
         return out
     for hv in pick(rnd, HOSTS[c["host"]], k):
         for pv in pick(rnd, PATHS[c["path"]], k):
             did = "did:web:" + hv["id"] + pv["id"]
             for s in pick(rnd, answer_variants(c["ans"], did, hv, pv), k):
-                out.append(dict(kind="web", did=did, server=s, local="none", meta=c["meta"],
+                out.append(dict(kind="web", did=did, server=s, local="none", meta=c["meta"], order=c["built"],
                                 x=dict(host=hv["host"], port=hv["port"], segs=pv["segs"])))
     return out
 
@@ -238,9 +238,13 @@ def judge(case, pred, r):
         hc, pc, ans = c.get("host"), c.get("path"), c.get("ans")
         bad_dials = [d for d in dials if allowed is None or d.lower() != allowed]
         if bad_dials:
-            if allowed is not None and ans in REDIR_TO:
-                viol.append((dict(kind="redirect-followed", to=REDIR_TO[ans]),
-                             "302-style answer of %s to %s was followed: dials %s" % (case["did"], case["server"]["location"], dials)))
+            if allowed is not None and ans in ("redir-http", "redir-http-ip"):
+                # "only over HTTPS" covers the whole exchange: the redirect took the fetch to plain HTTP
+                viol.append((dict(kind="fetch-plain-http", via="redirect", to=REDIR_TO[ans], resolver_built=case.get("order", "")),
+                             "resolver built %s: 3xx answer of %s to %s was followed over plain HTTP: dials %s" % (case.get("order"), case["did"], case["server"]["location"], dials)))
+            elif allowed is not None and ans in REDIR_TO:
+                viol.append((dict(kind="redirect-followed", to=REDIR_TO[ans], resolver_built=case.get("order", "")),
+                             "resolver built %s: 3xx answer of %s to %s was followed: dials %s" % (case.get("order"), case["did"], case["server"]["location"], dials)))
             elif x["host"] is None:
                 viol.append((dict(kind="forbidden-host-fetched", host=hc), "%s: connection attempt(s) %s" % (case["did"], dials)))
             elif x["segs"] is None:
@@ -373,9 +377,12 @@ def run(prop, tier, seed, replay=None):
         raise Inconclusive("prescriptive model: %s %s\n%s" % (m.violation, m.error, m.raw[-2000:]))
     models = [dict(cfg="DidResolve.prescriptive.cfg", states=m.distinct, transitions=m.generated, wall_s=round(m.wall, 1))]
     if not quick:
-        for a in ("Route", "Local", "Parse", "Fetch", "Follow", "Check"):
+        for a in ("Boot1", "Boot2", "Route", "Local", "Parse", "Fetch", "Follow", "Check"):
             if not m.coverage.get(a):
                 raise Inconclusive("vacuity: action %s never fired (%s)" % (a, m.coverage))
+        fz = vlib.tlc("MCDidResolve", "DidResolve.witnessFrozenPolicy.cfg", workers=2, timeout=300)
+        if fz.violation != "FetchOnlyFromEncodedOrigin":
+            raise Inconclusive("the model does not distinguish when the resolver is constructed (%s %s)" % (fz.violation, fz.error))
         for wname in ("Doc", "Redirect", "Deactivated"):
             wv = vlib.tlc("MCDidResolve", "DidResolve.witness%s.cfg" % wname, workers=2, timeout=300)
             if wv.violation != "Witness" + wname:
@@ -435,7 +442,7 @@ def run(prop, tier, seed, replay=None):
                 repaired += 1
                 drift = []
         if r.get("parsed"):
-            distinct.add(json.dumps([cc["kind"], cc.get("did") or r.get("did", "")[:12], cc.get("url"), cc.get("server"), cc.get("local"), cc.get("meta"),
+            distinct.add(json.dumps([cc["kind"], cc.get("order"), cc.get("did") or r.get("did", "")[:12], cc.get("url"), cc.get("server"), cc.get("local"), cc.get("meta"),
                                      cc.get("keytype"), cc.get("defect")], sort_keys=True))
             if pi is not None:
                 abstract_seen.add(pi)
@@ -466,7 +473,8 @@ def run(prop, tier, seed, replay=None):
                roundtrip_cases=len(rts), cases_with_property_violation=nviol_cases, known_findings=sorted(rep.known),
                drift=ndrift, notes=nnotes, cases_matching_only_the_prescriptive_design=repaired, models=models, samples=samples,
                rule="TLC enumerates the complete product of abstract classes of DidResolve.tla (24 host classes x 10 path classes x 14 server answers for "
-                    "remote did:web; 14 answers x 2 local histories x 3 metadata options for managed did:web; did:jwk / did:key x validity x metadata) and "
+                    "remote did:web; 14 answers x 2 local histories x 3 metadata options for managed did:web; did:jwk / did:key x validity x metadata; every case x the moment the resolver and its HTTP client are "
+                    "constructed: before strict mode is switched on - the production order of cmd.CreateSystem - or after) and "
                     "proves the invariants for the prescriptive design; every enumerated case is concretised (%s concrete variant(s) per class dimension, "
                     "seeded) and executed on the real vdr resolver wiring behind a recording dialer and local TLS/plain servers; the round-trip law is "
                     "run on every host x path class pair in both directions. exhaustive=true refers to the abstract product, not to the concrete "
@@ -476,7 +484,8 @@ def run(prop, tier, seed, replay=None):
                         ["the expected origin of each concrete identifier is given by construction in the class tables of tools/props/didresolve.py",
                          "every dial of the HTTP transport is rerouted to local test servers that present a valid certificate for ANY requested name: "
                          "DNS and the web PKI are out of scope, only the resolver's own checks are exercised",
-                         "the HTTP client runs with client.StrictMode = true (strict mode is the default); keep-alives disabled so every request dials",
+                         "the HTTP client runs with client.StrictMode = true at resolution time (strict mode is the default); two real vdr.Module instances exist per driver "
+                         "process, one configured before and one after the flag is switched on; keep-alives disabled so every request dials",
                          "round-trip equality is taken modulo the case of hex digits in percent-escapes",
                          "did:x509 and did:nuts resolution are not exercised (did:nuts never uses HTTP; managed DIDs are did:web on sqlite)",
                          "a redirect to another path on the same host over https is not counted as a foreign origin"])
